@@ -251,7 +251,7 @@ def check(ctx):
         if ok_names:
             axs, _ = axioms_audit(['TJ.Gen.Asm.%s' % n for n in ok_names], ['TJ.Gen.Asm.%s.correct' % n for n in ok_names])
         # RV64I: the 64-bit lifting of the data path (TJ.Asm.RV64Lift.data_block) and its applicability to the regenerated programs (TJ.Asm.RV64Programs)
-        rv_thms = ['TJ.Asm.RV64.data_step', 'TJ.Asm.RV64.data_block', 'TJ.Asm.RV64.data_block_low', 'TJ.Asm.RV64.sub_block_lifts'] + \
+        rv_thms = ['TJ.Asm.RV64.data_step', 'TJ.Asm.RV64.data_block', 'TJ.Asm.RV64.data_block_low', 'TJ.Asm.RV64.sub_block_lifts', 'TJ.Asm.RV64.counter_lift'] + \
                   ['TJ.Asm.RV64.rv64i_%s_%s' % (v, k) for v in ('128', '192', '256') for k in ('shape', 'data')]
         rv_axs = {}
         if all(built.get('rv64i_%s' % v) for v in ('128', '192', '256')):
